@@ -88,6 +88,28 @@ impl PluginOpts {
         o
     }
 
+    /// Unusual but legal settings of the prolonged-sound-mark and yomigana plugins (a replacement that is
+    /// empty or longer than the run it replaces, other marks and brackets, other length limits)
+    pub fn randomize_input_cfg(&mut self, rng: &mut Rng) {
+        let mark_pool = ['ー', '-', '⁓', '〜', '〰', '~', 'ｰ', '!', 'っ'];
+        let mut marks: Vec<char> = vec![];
+        for _ in 0..1 + rng.below(4) {
+            let c = *rng.pick(&mark_pool);
+            if !marks.contains(&c) {
+                marks.push(c);
+            }
+        }
+        let repl = rng.s(&["", "", "ー", "ーー", "x", "〜", "𠮷"]).to_string();
+        self.prolonged_cfg = Some((marks, repl));
+        let lbr: Vec<char> = if rng.chance(1, 2) { vec!['(', '（'] } else { vec!['[', '「', '('] };
+        let rbr: Vec<char> = if rng.chance(1, 2) { vec![')', '）'] } else { vec![']', '」', ')'] };
+        self.yomigana_cfg = Some((lbr, rbr, *rng.pick(&[1usize, 2, 4, 8, 30])));
+        self.prolonged = true;
+        if rng.chance(1, 2) {
+            self.yomigana = true;
+        }
+    }
+
     pub fn to_cfg(&self, oov_pos: &Pos, kata_pos: &Pos) -> Value {
         let mut input = vec![];
         if self.default_input {
@@ -200,6 +222,15 @@ impl World {
     }
 }
 
+/// like build_world with random plugins, which `tweak` may adjust before the configuration is written
+pub fn build_world_tweak(rng: &mut Rng, dopts: &DictOpts, path_rewrite: bool, place: Place, tweak: impl FnOnce(&mut Rng, &mut PluginOpts)) -> Result<World, String> {
+    let matrix = dictgen::gen_matrix(rng, dopts);
+    let sys = dictgen::gen_system(rng, dopts, &matrix);
+    let mut plugins = PluginOpts::random(rng, &matrix, path_rewrite);
+    tweak(rng, &mut plugins);
+    build_world_from(rng, dopts, matrix, sys, plugins, place)
+}
+
 pub fn build_world(rng: &mut Rng, dopts: &DictOpts, popts: Option<PluginOpts>, path_rewrite: bool, place: Place) -> Result<World, String> {
     let matrix = dictgen::gen_matrix(rng, dopts);
     let sys = dictgen::gen_system(rng, dopts, &matrix);
@@ -211,6 +242,14 @@ pub fn build_world(rng: &mut Rng, dopts: &DictOpts, popts: Option<PluginOpts>, p
 }
 
 pub fn build_world_from(rng: &mut Rng, dopts: &DictOpts, matrix: Matrix, sys: Lexicon, plugins: PluginOpts, place: Place) -> Result<World, String> {
+    build_world_users(rng, dopts, matrix, sys, None, plugins, place)
+}
+
+/// `premade`: user lexicons to use instead of `plugins.n_users` generated ones
+pub fn build_world_users(rng: &mut Rng, dopts: &DictOpts, matrix: Matrix, sys: Lexicon, premade: Option<Vec<Lexicon>>, mut plugins: PluginOpts, place: Place) -> Result<World, String> {
+    if let Some(p) = &premade {
+        plugins.n_users = p.len();
+    }
     let res = ResDir::standard();
     let pool = dictgen::pos_pool();
     let unk_def = dictgen::gen_unk_def(rng, &matrix, &pool[0..3]);
@@ -234,7 +273,10 @@ pub fn build_world_from(rng: &mut Rng, dopts: &DictOpts, matrix: Matrix, sys: Le
         let plain_cfg = env::config(&env::minimal_cfg(&pool[0]), &res);
         let plain = env::load(&plain_cfg, &sys_bytes, &[], Place::Owned).map_err(|e| format!("plain load failed: {:?}", e))?;
         for layer in 0..plugins.n_users {
-            let u = dictgen::gen_user(rng, dopts, &matrix, &sys, layer);
+            let u = match &premade {
+                Some(p) => p[layer].clone(),
+                None => dictgen::gen_user(rng, dopts, &matrix, &sys, layer),
+            };
             let csv = u.to_csv(Some(&sys));
             let b = env::compile_user(&plain, csv.as_bytes()).map_err(|e| format!("user dictionary rejected: {:?}", e))?;
             users.push(u);
@@ -329,18 +371,21 @@ impl<'a> Tok<'a> {
         self.tok.do_tokenize()?;
         self.normalized.clear();
         self.normalized.push_str(self.tok.verif_input().current());
-        {
-            // peek at the result nodes (public swap API, swapped back immediately)
-            use sudachi::analysis::node::LatticeNode;
-            let mut inp = sudachi::input_text::InputBuffer::new();
-            let mut nodes = Vec::new();
-            let mut ss = sudachi::dic::subset::InfoSubset::empty();
-            self.tok.swap_result(&mut inp, &mut nodes, &mut ss);
-            self.nranges = nodes.iter().map(|n| (n.begin(), n.end())).collect();
-            self.tok.swap_result(&mut inp, &mut nodes, &mut ss);
-        }
+        self.peek_ranges();
         self.list.collect_results(&mut self.tok)?;
         Ok(())
+    }
+
+    /// records the (begin, end) of every result node of the analysis that was just made, before the
+    /// results are collected (public swap API, swapped back immediately)
+    pub fn peek_ranges(&mut self) {
+        use sudachi::analysis::node::LatticeNode;
+        let mut inp = sudachi::input_text::InputBuffer::new();
+        let mut nodes = Vec::new();
+        let mut ss = sudachi::dic::subset::InfoSubset::empty();
+        self.tok.swap_result(&mut inp, &mut nodes, &mut ss);
+        self.nranges = nodes.iter().map(|n| (n.begin(), n.end())).collect();
+        self.tok.swap_result(&mut inp, &mut nodes, &mut ss);
     }
 }
 
